@@ -10,6 +10,7 @@ import (
 	"time"
 
 	"github.com/openziti/storage/boltz"
+	"go.etcd.io/bbolt"
 	"verif/harness/internal/core"
 	"verif/harness/internal/schema"
 )
@@ -141,8 +142,9 @@ func c07ReuseCase(c *core.Ctx, idx int) {
 		return
 	}
 	r := c.Rand()
-	def := &schema.StoreDef{Type: "boxes", BasePath: []string{"stores"}, Fields: []schema.Field{{Name: "label", Kind: schema.KStr}},
-		Unique: []schema.UniqueDef{{Field: "label", Nullable: true}}}
+	def := &schema.StoreDef{Type: "boxes", BasePath: []string{"stores"}, Fields: []schema.Field{{Name: "label", Kind: schema.KStr}, {Name: "parent", Kind: schema.KStr, FK: "boxes"}},
+		Unique: []schema.UniqueDef{{Field: "label", Nullable: true}},
+		FKs:    []schema.FKDef{{Field: "parent", Target: "boxes", Kind: schema.FkConstraint, Nullable: true, Cascade: int(boltz.CascadeNone)}}}
 	sc := schema.Build([]*schema.StoreDef{def})
 	path := c.TempFile("c07r")
 	db, err := sc.OpenDb(path)
@@ -258,6 +260,42 @@ func c07ReuseCase(c *core.Ctx, idx int) {
 			time.Sleep(time.Millisecond)
 		}
 		time.Sleep(2 * time.Millisecond)
+	}
+	// what a rolled back transaction created is not there for the next transaction on the same context: a reference to
+	// it is refused like any reference to a missing entity
+	{
+		mk := func(id, parent string) *schema.Ent {
+			v := map[string]any{"label": "l-" + id}
+			if parent != "" {
+				v["parent"] = parent
+			}
+			return &schema.Ent{Id: id, Typ: "boxes", V: v}
+		}
+		run := db.Update
+		if idx%2 == 1 {
+			run = db.Batch
+		}
+		err1 := run(ctx, func(mctx boltz.MutateContext) error {
+			if err := st.Store.Create(mctx, mk("target", "")); err != nil {
+				return err
+			}
+			if err := st.Store.Create(mctx, mk("referrer", "target")); err != nil {
+				return err
+			}
+			return boom
+		})
+		err2 := run(ctx, func(mctx boltz.MutateContext) error { return st.Store.Create(mctx, mk("referrer-two", "target")) })
+		c.Eval()
+		c.Count("references_to_entities_of_a_rolled_back_transaction", 1)
+		present := false
+		_ = db.View(func(tx *bbolt.Tx) error {
+			present = st.Store.IsEntityPresent(tx, "referrer-two") || st.Store.IsEntityPresent(tx, "target")
+			return nil
+		})
+		if err1 == nil || err2 == nil || present {
+			c.Violationf("C07 context reuse: an entity created by a rolled back transaction is a valid reference target for the next transaction on the same context", map[string]any{"via_batch": idx%2 == 1, "system_context": idx%4 == 3},
+				"first transaction (rolled back by the caller) returned %v, the create referencing its entity returned %v, something of it present afterwards: %v", err1, err2, present)
+		}
 	}
 	mu.Lock()
 	defer mu.Unlock()
